@@ -259,6 +259,25 @@ struct Real5 {
   std::unique_ptr<PoolDoc> removed;     // R5 every object gets an extra first member and a lookup map, then RemoveMember takes it out again
 };
 
+// E7: numbers whose 64-bit payloads coincide across kinds: (kind 0 uint / 1 sint / 2 double-bits, payload)
+static const std::vector<std::pair<int, uint64_t>>& e7_numbers() {
+  static std::vector<std::pair<int, uint64_t>> E7N;
+  if (E7N.empty()) {
+    for (uint64_t k : {(uint64_t)1, (uint64_t)2, (uint64_t)1234567, (uint64_t)1 << 31, (uint64_t)1 << 32, (uint64_t)1 << 52, (uint64_t)1 << 62, (uint64_t)1 << 63}) {
+      E7N.push_back({1, (uint64_t)0 - k});  // -k
+      E7N.push_back({0, (uint64_t)0 - k});  // 2^64 - k
+      E7N.push_back({0, k});
+    }
+    for (uint64_t b : {(uint64_t)0, (uint64_t)0x8000000000000000ull, (uint64_t)0x3ff0000000000000ull, (uint64_t)0xbff0000000000000ull, (uint64_t)0x4340000000000000ull, (uint64_t)0x7fefffffffffffffull, (uint64_t)1}) {
+      E7N.push_back({2, b});               // the double with these bits
+      E7N.push_back({0, b});               // the unsigned integer with the same payload
+      if (b >> 63) E7N.push_back({1, b});  // the negative integer with the same payload
+    }
+    E7N.push_back({0, 0});
+  }
+  return E7N;
+}
+
 int main(int argc, char** argv) {
   vr::Args args = vr::parse_args(argc, argv);
   vr::Runner R(args);
@@ -575,6 +594,52 @@ int main(int argc, char** argv) {
       cmp(za, zc, false, "value vs copy with one value changed");
       return;
     }
+    if (f.name[1] == '7') {
+      using N = PoolDoc::NodeType;
+      unsigned pos = (unsigned)(idx % 3);
+      idx /= 3;
+      const auto& E7N = e7_numbers();
+      auto A = E7N[idx / E7N.size()], B = E7N[idx % E7N.size()];
+      auto mk = [](const std::pair<int, uint64_t>& x) {
+        if (x.first == 0) return N((uint64_t)x.second);
+        if (x.first == 1) return N((int64_t)x.second);
+        double d;
+        std::memcpy(&d, &x.second, 8);
+        return N(d);
+      };
+      auto wrap = [&](N v, PoolDoc& d) {
+        auto& al = d.GetAllocator();
+        if (pos == 0) {
+          static_cast<N&>(d) = std::move(v);
+        } else if (pos == 1) {
+          d.SetArray();
+          d.PushBack(N(1), al);
+          d.PushBack(std::move(v), al);
+        } else {
+          d.SetObject();
+          d.AddMember("k", std::move(v), al);
+        }
+      };
+      PoolDoc da, db, pb;
+      wrap(mk(A), da);
+      wrap(mk(B), db);
+      std::string tb = db.Dump();
+      pb.Parse(tb);
+      ctx.eval();
+      ctx.nontriv();
+      bool want = A == B;
+      std::string desc = da.Dump() + " vs " + tb + " (kinds " + std::to_string(A.first) + "," + std::to_string(B.first) + ")";
+      if (ctx.want_sample) ctx.sample(desc);
+      if (pb.HasParseError()) {
+        ctx.violation("harness", "harness_generator", desc, "harness error: dump does not parse");
+        return;
+      }
+      bool e1 = da == db, e2 = db == da, e3 = da == pb, e4 = pb == da;
+      if (e1 != want || e2 != want || e3 != want || e4 != want)
+        ctx.violation("eq_number_kinds", "eq_number_pair", desc, "a == b is %d, b == a is %d, a == parse(dump(b)) is %d, parse(dump(b)) == a is %d; kind and value are %s", (int)e1, (int)e2, (int)e3, (int)e4, want ? "the same" : "different");
+      if ((da != db) == e1) ctx.violation("ne_not_negation", "eq_ne_not_negation", desc, "operator!= is not the negation of operator==");
+      return;
+    }
     if (f.name[1] == '5') {
       using N = PoolDoc::NodeType;
       PoolDoc holder;
@@ -722,12 +787,23 @@ int main(int argc, char** argv) {
   f6.chunk = 16;
   f6.rule = "objects of 12 members named from a pool of " + std::to_string(kpool.size()) + " keys (lengths 1..33 around 8/16/32, one byte of value a/z/7f/80/c3/e8/ff at positions 0,1,6,7,8,15,16,31), 8 strides: the value, its reversal and a copy with one value changed, each parsed / with lookup maps / API-built in reverse / deep-copied: all 16 realisation pairs of equal values are ==, of different values !=";
   vr::Family f5;
+  // E7: number x number: all ordered pairs over numbers of the three kinds whose 64-bit PAYLOADS coincide across
+  // kinds (-k and 2^64-k; an integer and the double with the same bit pattern; +0.0 / -0.0 / 0 / 2^63), as root,
+  // array element and member value, parsed and API-built
+  vr::Family f7;
+  f7.name = "E7_number_pairs_coinciding_payloads";
+  f7.count = 0;  // set below
+  f7.group = "E7";
+  f7.chunk = 64;
+  const std::vector<std::pair<int, uint64_t>>& E7N = e7_numbers();
+  f7.count = (uint64_t)E7N.size() * E7N.size() * 3;
+  f7.rule = "all ordered pairs of " + std::to_string(E7N.size()) + " numbers of the three kinds whose 64-bit payloads coincide across kinds (-k vs 2^64-k for 8 values of k, integers vs the doubles with the same bit pattern, +0.0 / -0.0 / 0 / 2^63) x 3 positions (root, array element, member value), API-built against parsed: == holds iff kind and value are the same, symmetric, != its negation";
   f5.name = "E5_scalar_overloads";
   f5.count = 40;
   f5.group = "E5";
   f5.chunk = 4;
   f5.rule = "node == scalar for the C++ types the overload accepts (bool, int, uint32_t, int64_t, uint64_t, float, double, StringView): 40 nodes of every kind (integers around 0 / 2^31 / 2^32 / 2^53 / 2^63 / extremes, doubles incl. +-0.0, integral values, NaN, infinities, strings, empty containers, null, booleans) x 60 scalars: the result must be that of node == NodeType(scalar) and of reference value equality with number kinds distinguished, != its negation";
-  std::vector<vr::Family> fams = {f1, f2, f3, f4, f5, f6};
+  std::vector<vr::Family> fams = {f1, f2, f3, f4, f5, f6, f7};
   if (args.replay) return R.replay_one(fams, check);
   for (auto& f : fams) R.run(f, check);
   return R.finish();
